@@ -90,7 +90,8 @@ let fn_monitors tab self rip dists (len : int) (tags : nrec option list) : strin
 
 let handle fields impl : string option * string list =
   match fields with
-  | ["fn"; _; _; _; _; ds; _; ";"; selfs; ripf; tabs] ->
+  | ["fn"; _; _; _; _; ds; _; ";"; selfs; ripf; tabs; initdone] ->
+    let init_done = (initdone = "1") in
     let (self, _) = parse_rec selfs in
     let rip = n_ (int_of_string ripf) in
     let tab = parse_table tabs in
@@ -104,7 +105,7 @@ let handle fields impl : string option * string list =
     let ws = build_witness tab self rip dists reply_known in
     let shuf (d : n) (g : nrec list) = pick_perm (List.assoc_opt (int_n d) ws) g in
     let m = show_res (fun enrs -> Printf.sprintf "ok %d %s" (int_n (nodes_reply_len enrs)) (show_tags enrs))
-        (handle_find_nodes tab self rip shuf dists) in
+        (handle_find_nodes_st init_done tab self rip shuf dists) in
     let mons = match reply_opt with
       | Some tags -> fn_monitors tab self rip dists len tags
       | None -> if starts impl "ok" then ["findnodes-reply-malformed " ^ impl]
@@ -149,6 +150,9 @@ let handle fields impl : string option * string list =
           if !out <> [] then fails := ("nodes-returned-record-not-in-response " ^ String.concat "," !out) :: !fails;
           List.rev !fails in
     (Some m, mons)
+  | ["dg"; _; _] when impl = "unobserved" -> (None, [])   (* the exchange timed out or could not be attributed: proves nothing either way *)
+  | "live-unobserved" :: _ -> (None, [])
+  | ["lfn"; _; ";"; _; _] when starts impl "err" -> (None, [])
   | ["dg"; reqid; resplen] ->
     let predicted = int_n (talkresp_datagram (n_ (int_of_string reqid)) false (n_ (int_of_string resplen)) false) in
     let sizes = if impl = "." then [] else List.map int_of_string (split ',' impl) in
